@@ -112,6 +112,9 @@ fn grow(ds: &PartialDSet, m: usize) -> PartialDSet {
 
 
 fn cut_face(ds: &PartialDSet, d1: usize, d2: usize) -> PartialDSet {
+    #[cfg(feature = "verif")]
+    crate::verif_hooks::hit("simplify.cut_face");
+
     let n = ds.size();
     let mut ds = grow(ds, 8);
     let old = vec![
@@ -149,6 +152,9 @@ fn cut_face(ds: &PartialDSet, d1: usize, d2: usize) -> PartialDSet {
 
 
 fn cut_tile(ds: &PartialDSet, cut_chambers: &Vec<usize>) -> PartialDSet {
+    #[cfg(feature = "verif")]
+    crate::verif_hooks::hit("simplify.cut_tile");
+
     let n = ds.size();
     let m = cut_chambers.len();
     assert!(m % 2 == 0);
@@ -194,6 +200,9 @@ fn cut_tile(ds: &PartialDSet, cut_chambers: &Vec<usize>) -> PartialDSet {
 
 
 fn squeeze_tile_3d(ds: &PartialDSet, d: usize, e: usize) -> PartialDSet {
+    #[cfg(feature = "verif")]
+    crate::verif_hooks::hit("simplify.squeeze_tile_3d");
+
     let f = ds.op(0, e).unwrap();
     let g = ds.op(0, d).unwrap();
     let f2 = ds.op(2, f).unwrap();
@@ -413,6 +422,12 @@ fn split_and_glue(input: &DSetOrEmpty) -> Option<DSetOrEmpty> {
                         DSetOrEmpty::Empty => {},
                         DSetOrEmpty::DSet(ds_out) => {
                             if ds_out.size() < ds_in.size() {
+                                #[cfg(feature = "verif")]
+                                crate::verif_hooks::hit(if key.0 == 0 {
+                                    "simplify.split_and_glue.edge_mode"
+                                } else {
+                                    "simplify.split_and_glue.tile_mode"
+                                });
                                 return Some(DSetOrEmpty::DSet(ds_out));
                             }
                         }
@@ -454,7 +469,23 @@ fn network_cut(ds: &PartialDSet, d: usize, edge_mode: bool)
         ds, d, edge_mode, elm_to_index, edges, source, sink
     );
 
+    #[cfg(feature = "verif")]
+    let verif_edges = if crate::verif_hooks::events_enabled() {
+        edges.clone()
+    } else {
+        vec![]
+    };
+
     let cut_raw = min_vertex_cut_undirected(edges, source, sink);
+
+    #[cfg(feature = "verif")]
+    crate::verif_hooks::emit(crate::verif_hooks::Event::VertexCut {
+        edges: verif_edges,
+        source,
+        sink,
+        cut: cut_raw.cut_vertices.clone(),
+        inside: cut_raw.inside_vertices.clone(),
+    });
 
     let marked: HashSet<_> = cut_with_insides(cut_raw, reps, ds, d).iter()
         .flat_map(|&e| ds.orbit([1, 2], e))
@@ -618,6 +649,34 @@ fn make_skeleton(ds: &PartialDSet)
 }
 
 
+#[cfg(feature = "verif")]
+fn verif_emit_move(
+    op: fn(&DSetOrEmpty) -> Option<DSetOrEmpty>,
+    before: &DSetOrEmpty,
+    after: &DSetOrEmpty
+) {
+    let size = |ds: &DSetOrEmpty| match ds {
+        DSetOrEmpty::Empty => 0,
+        DSetOrEmpty::DSet(ds) => ds.size(),
+    };
+    let moves: [(fn(&DSetOrEmpty) -> Option<DSetOrEmpty>, &'static str); 4] = [
+        (fix_local_1_vertex, "fix_local_1_vertex"),
+        (fix_local_2_vertex, "fix_local_2_vertex"),
+        (fix_non_disk_face, "fix_non_disk_face"),
+        (split_and_glue, "split_and_glue"),
+    ];
+    let name = moves.iter()
+        .find(|(f, _)| *f as usize == op as usize)
+        .map(|&(_, name)| name)
+        .unwrap_or("unknown");
+
+    crate::verif_hooks::hit(name);
+    crate::verif_hooks::emit(crate::verif_hooks::Event::SimplifyMove {
+        op: name, before: size(before), after: size(after)
+    });
+}
+
+
 pub fn simplify<T: DSet>(ds: &T) -> Option<PartialDSym> {
     // TODO add assertions to ensure input is legal
 
@@ -633,6 +692,8 @@ pub fn simplify<T: DSet>(ds: &T) -> Option<PartialDSym> {
             split_and_glue,
         ] {
             if let Some(out) = op(&ds) {
+                #[cfg(feature = "verif")]
+                verif_emit_move(op, &ds, &out);
                 ds = merge_all(&out).or(Some(out)).unwrap();
                 changed = true;
                 break;
